@@ -13,6 +13,7 @@ import (
 	"crypto/x509/pkix"
 	"math/big"
 	"net"
+	"os"
 	"strings"
 	"sync"
 	"time"
@@ -183,4 +184,24 @@ func (c *serialConn) Write(p []byte) (int, error) {
 	c.wmu.Lock()
 	defer c.wmu.Unlock()
 	return c.Conn.Write(p)
+}
+
+// noNetShim: the tree under test did not build with verifsim/snet in place of
+// package net (it uses something of package net the shim does not have); the
+// driver built it without the rewrite and the stream scenarios fall back to
+// the stand-in transports, so that a changed tree never fails to build or to
+// run for a reason of ours.
+var noNetShim = os.Getenv("VERIF_NO_NETSHIM") != ""
+
+func (w *W) simFallback(tran string) string {
+	if !noNetShim || w.Real {
+		return tran
+	}
+	switch tran {
+	case "tcp", "tls+tcp":
+		return "sim"
+	case "ipc":
+		return "simipc"
+	}
+	return tran
 }
